@@ -155,6 +155,7 @@ static void set_offsets (OrcProgram * p, VRunCfg * c, int lead_off, int variant)
     k++;
     c->off[i] = (((lead_off / v->size) * (2 * k + 1 + variant) + 5 * k + variant * 3) * v->size) % 64;
     c->off[i] = c->off[i] / al * al;
+    if (al < v->size) c->off[i] = (c->off[i] + 2 * k + 1 + variant) % 64;	/* declared below the element size: any byte offset */
   }
 }
 
